@@ -49,6 +49,9 @@ def main():
         for f in out_dir.iterdir():
             if f.name.startswith("demo") and f.is_file():
                 shutil.copy(f, sdir / f.name)
+            elif f.name == "demo" and f.is_dir():
+                shutil.rmtree(sdir / "demo", ignore_errors=True)
+                shutil.copytree(f, sdir / "demo", ignore=shutil.ignore_patterns("target"))
     else:
         agent_meta = json.loads((sdir / "meta.json").read_text()).get("agent_meta", {})
     meta_path = sdir / "meta.json"
@@ -95,6 +98,18 @@ def main():
                     d.mkdir(exist_ok=True)
                     shutil.copy(f, d / f.name)
                     placed.append(str(d / f.name))
+            if (sdir / "demo").is_dir():
+                # a stand-alone demonstration crate with absolute paths into the agent's tree
+                orig = re.search(r"/tmp/mut/[A-Za-z0-9]+", agent_meta.get("demo_cmd", "") + json.dumps(agent_meta))
+                d = w / "OUT" / "demo"
+                shutil.rmtree(d, ignore_errors=True)
+                shutil.copytree(sdir / "demo", d)
+                for f in d.rglob("*"):
+                    if f.is_file() and f.suffix in (".rs", ".toml"):
+                        t = f.read_text()
+                        if orig and orig.group(0) in t:
+                            f.write_text(t.replace(orig.group(0), str(w)))
+                shutil.copy(w / "Cargo.lock", d / "Cargo.lock")
             rc_with, out_with = sh(demo_cmd, cwd=w, env=env)
             sh(f"git apply -R {sdir / 'patch.diff'}", cwd=w)
             rc_without, out_without = sh(demo_cmd, cwd=w, env=env)
@@ -112,6 +127,9 @@ def main():
                 "seconds": round(time.time() - t0),
             }
             print(json.dumps({k: v for k, v in meta["confirmation"].items() if k.startswith(("suite_passes", "demo_fails", "demo_passes"))}))
+        if "--confirm-only" in flags:
+            meta_path.write_text(json.dumps(meta, indent=1))
+            return 0
         # the check
         t0 = time.time()
         rc, out = sh(f"./check {prop} --tier {tier}", cwd=VERIF, env={"VERIF_REPO": str(w)}, timeout=4 * 3600)
